@@ -4,6 +4,12 @@ import json, os, shutil, sys
 wt, n, prop, caught, needs, by = sys.argv[1:7]
 src = os.path.join(wt, "out", n)
 dst = os.path.join("/verif/seeded", "%s-%s" % (prop, n))
+if os.path.exists(dst) and open(os.path.join(dst, "patch.diff")).read() != open(os.path.join(src, "patch.diff")).read():
+    # a later round of seeds for the same property: never overwrite, take the next free number
+    k = 1
+    while os.path.exists(os.path.join("/verif/seeded", "%s-%d" % (prop, k))):
+        k += 1
+    dst = os.path.join("/verif/seeded", "%s-%d" % (prop, k))
 os.makedirs(dst, exist_ok=True)
 for f in ("patch.diff", "demo.cpp", "NOTES.md"):
     if os.path.exists(os.path.join(src, f)):
